@@ -179,6 +179,13 @@ def documents(thorough):
         {"lang": "en-US", "region": "low", "ps": [{"begin": "3s", "end": "4s", "content": ["lower scene"]}, {"begin": "5s", "end": "6s", "content": ["third"]}]}]}, \
         False, {"en-US": [(S, 2 * S, ["upper scene"], None, None, "top"), (3 * S, 4 * S, ["lower scene"], None, None, "low"),
                           (5 * S, 6 * S, ["third"], None, None, "low")]}
+    yield "paragraphs of one region, one aligned through its style", {"styles": {"mid": {"tts:color": "white", "tts:textAlign": "center"}},
+                                                                     "divs": [{"lang": "en-US", "ps": [
+        {"begin": "1s", "end": "2s", "region": "top", "style": "plain", "content": ["first"]},
+        {"begin": "3s", "end": "4s", "region": "top", "style": "mid", "content": ["second"]},
+        {"begin": "5s", "end": "6s", "region": "top", "style": "plain", "content": ["third"]}]}]}, False, \
+        {"en-US": [(S, 2 * S, ["first"], "top", "plain", None), (3 * S, 4 * S, ["second"], "top", "mid", None),
+                   (5 * S, 6 * S, ["third"], "top", "plain", None)]}
     yield "caption style reference", {"divs": [{"lang": "en-US", "ps": [{"begin": "1s", "end": "2s", "style": "emph",
                                                                           "content": ["all italic"]}]}]}, False, \
         {"en-US": [(S, 2 * S, ["all italic"], None, "emph", None)]}
@@ -355,6 +362,10 @@ def explore(ctx, thorough):
                     bad["italics"].append(dict(case, cue=k + 1, italic_characters=got_it, required=want_it))
                 gl = [(ch, lay) for ch, _, lay in c["chars"] if ch.strip()]
                 wl = [(ch, region_value(r)) for ch, _, r in sh if ch.strip()]
+                # a style the paragraph refers to may set the horizontal alignment: it overrides the region's for that paragraph
+                p_align = dict(STYLES, **doc.get("styles", {})).get(p_style, {}).get("tts:textAlign")
+                if p_align is not None:
+                    wl = [(ch, wv_ if wv_ is None else wv_[:3] + (H_ALIGN[p_align],) + wv_[4:]) for ch, wv_ in wl]
                 if len(gl) == len(wl):
                     for (ch, lay), (_, wv) in zip(gl, wl):
                         if wv is None:
